@@ -254,6 +254,9 @@ func (v *View) Applicable(a Action) bool {
 
 var mu sync.Mutex
 
+// Stuck counts scripts in which some step did not complete within the hang timeout.
+var Stuck int
+
 const wait = 3 * time.Second
 
 func gid() int64 {
@@ -407,6 +410,17 @@ func Run(s Script, next func(v *View) *Action) (Script, []Obs, Final) {
 		}
 	}
 	var obs []Obs
+	stuck := false
+	// guard runs a call of the real code that must not block; a hang marks the script stuck
+	guard := func(f func()) {
+		done := make(chan struct{})
+		go func() { f(); close(done) }()
+		select {
+		case <-done:
+		case <-time.After(wait):
+			stuck = true
+		}
+	}
 	view := func() *View {
 		v := &View{St: map[int]cst{}, Early: map[int]bool{}, Dialing: dialing, DialOk: dialOk, Closed: closed, InnerCls: innerClosed, Steps: len(s.Actions)}
 		for c, cr := range calls {
@@ -417,6 +431,9 @@ func Run(s Script, next func(v *View) *Action) (Script, []Obs, Final) {
 	}
 	bgOrder := []int{}
 	for {
+		if stuck {
+			break
+		}
 		v := view()
 		ap := next(v)
 		if ap == nil {
@@ -461,13 +478,16 @@ func Run(s Script, next func(v *View) *Action) (Script, []Obs, Final) {
 				o.Code = classify(r.rx, r.closed)
 				settle(a.C, o.Code, r.rx)
 			case <-time.After(tmo):
+				if a.K == YReserve {
+					stuck = true
+				}
 				o.Code = 9
 				cr.st = CBg
 				cr.bg = ch
 				bgOrder = append(bgOrder, a.C)
 			}
 		case YWithdraw:
-			cr.rx.WithdrawReserved()
+			guard(cr.rx.WithdrawReserved)
 			cr.st = CDone
 		case YStart:
 			startExchange(a.C)
@@ -547,7 +567,7 @@ func Run(s Script, next func(v *View) *Action) (Script, []Obs, Final) {
 			innerClosed = true
 		case YClose:
 			wasDialing := dialing
-			lc.Close()
+			guard(func() { lc.Close() })
 			closed = true
 			if wasDialing {
 				dialing = false
@@ -591,7 +611,20 @@ func Run(s Script, next func(v *View) *Action) (Script, []Obs, Final) {
 		obs = append(obs, o)
 	}
 	var fin Final
-	fin.Reserved = transport.VerifLazyReserved(lc)
+	// The counter is read under the connection's mutex: a reservation stuck
+	// for good inside ReserveNewQuery (it holds that mutex) makes this hang,
+	// which is itself an observation (never what the model says).
+	rc := make(chan int, 1)
+	go func() { rc <- transport.VerifLazyReserved(lc) }()
+	select {
+	case fin.Reserved = <-rc:
+	case <-time.After(wait):
+		fin.Reserved = 77777
+		stuck = true
+	}
+	if stuck {
+		Stuck++
+	}
 	d.mu.Lock()
 	fin.Inner = d.count
 	d.mu.Unlock()
@@ -612,7 +645,7 @@ func Run(s Script, next func(v *View) *Action) (Script, []Obs, Final) {
 		}
 		if x.st == CEarly {
 			// an early reservation nobody used: a late reserver (and Close) wait for it
-			x.rx.WithdrawReserved()
+			go x.rx.WithdrawReserved()
 		}
 	}
 	time.Sleep(time.Millisecond)
@@ -624,7 +657,12 @@ func Run(s Script, next func(v *View) *Action) (Script, []Obs, Final) {
 		}
 	}
 	d.mu.Unlock()
-	lc.Close()
+	closed2 := make(chan struct{})
+	go func() { lc.Close(); close(closed2) }()
+	select {
+	case <-closed2:
+	case <-time.After(wait):
+	}
 	deadline := time.After(wait)
 	for _, x := range calls {
 		if x.done != nil && x.st != CDone {
